@@ -9,6 +9,7 @@ from __future__ import annotations
 
 import importlib
 import multiprocessing as mp
+import os
 import sys
 import traceback
 import types
@@ -214,12 +215,17 @@ def _serve(conn, config) -> None:
 # ----------------------------------------------------------------------------- driver side
 
 
+DEFAULT_TIMEOUT = {"quick": 120.0, "thorough": 900.0}
+
+
 class Worker:
     """A child process dedicated to one optimizer configuration."""
 
-    def __init__(self, config, timeout: float = 120.0):
+    def __init__(self, config, timeout: float | None = None):
         self.config = config
-        self.timeout = timeout
+        # wall-clock guard only (C-level hangs); Python-level loops are cut by the counted step budget. Generous in
+        # the thorough tier, where 16 shards and large call lists share the machine with other work.
+        self.timeout = timeout if timeout is not None else DEFAULT_TIMEOUT[os.environ.get("PESTVERIF_TIER", "quick")]
         self._start()
 
     def _start(self):
@@ -257,7 +263,7 @@ class Worker:
             self.proc.join()
 
 
-def one_shot(config, fn_path: str, arg, timeout: float = 120.0):
+def one_shot(config, fn_path: str, arg, timeout: float | None = None):
     """Run one request in a fresh child (custom optimizer pass lists, isolation replays)."""
     w = Worker(config, timeout)
     try:
